@@ -216,6 +216,38 @@ def record_driver_traces(rng, ntraces):
     return traces
 
 
+def record_repo_test_traces():
+    """the repository's own tests of the RNG module (test/test_cl/test_random.py), run under the recorder: their assertions compare a few
+    draws; the trace validation checks every step of them against the specification"""
+    import importlib.util
+    import nifty
+    from nifty.cl import random as R
+    path = os.path.join(os.path.dirname(os.path.dirname(os.path.abspath(nifty.__file__))), "test", "test_cl", "test_random.py")
+    if not os.path.exists(path):
+        return [], []
+    spec = importlib.util.spec_from_file_location("repo_test_random", path)
+    mod = importlib.util.module_from_spec(spec)
+    spec.loader.exec_module(mod)
+    traces, names = [], []
+    with RngRecorder() as rec:
+        for name in sorted(n for n in dir(mod) if n.startswith("test_")):
+            base = len(R._sseq)
+            R.push_sseq_from_seed(123)
+            rec.start_trace()
+            try:
+                getattr(mod, name)()
+                failed = None
+            except Exception as e:      # a failing repository test is reported by the caller
+                failed = "%s: %s" % (type(e).__name__, str(e)[:100])
+            tr = rec.end_trace()
+            while len(R._sseq) > base:
+                R._sseq.pop()
+                R._rng.pop()
+            traces.append(tr)
+            names.append((name, failed))
+    return traces, names
+
+
 def record_library_traces(seed):
     """the library's own use of the module: SampledKLEnergy (mirrored or not) and a short classic optimize_kl"""
     import nifty.cl as ift
@@ -408,6 +440,12 @@ def run(ctx):
     rng = random.Random(ctx.seed * 31 + 5)
     traces = record_driver_traces(rng, 600 if q else 5000)
     lib = record_library_traces(ctx.seed)
+    rt, rnames = record_repo_test_traces()
+    for nm, failed in rnames:
+        if failed:
+            ctx.violation(dict(kind="repo-test-fails", test=nm), "the repository's own test %s fails: %s" % (nm, failed), replay=dict(test=nm))
+    ctx.notes["repository_test_traces"] = [n for n, _ in rnames]
+    lib = lib + rt
     alltr = traces + lib
     tv = tracemod.validate(ctx, "RandomCtxTrace", alltr, cfg=TCFG, label="%d driver + %d library traces" % (len(traces), len(lib)))
     if tv.tlc.violated:
